@@ -231,4 +231,23 @@ def encodeUPCA (ean13 : OneDCfg) (content : List Nat) (fmt : Nat) (width height 
   if fmt ≠ fmtUPC_A then .error (newWriterException [lit, .int fmt])
   else encode1D ean13 (48 :: content) fmtEAN_13 width height hints
 
+/-! ## the nine 1-D writers as configurations (constructors `New*Writer`) -/
+
+/-- `NewOneDimensionalCodeWriter(enc)`: default margin 10 -/
+def plainWriter (fmt : Nat) (core : List Nat → Hints → Res (List Bool)) : OneDCfg := ⟨[fmt], 10, core⟩
+/-- `NewUPCEANWriter(enc)`: default margin 9 -/
+def upcEanWriter (fmt : Nat) (core : List Nat → Hints → Res (List Bool)) : OneDCfg := ⟨[fmt], 9, core⟩
+
+def code39Writer := plainWriter fmtCODE_39
+def code93Writer := plainWriter fmtCODE_93
+def codabarWriter := plainWriter fmtCODABAR
+def itfWriter := plainWriter fmtITF
+def ean13Writer := upcEanWriter fmtEAN_13
+def ean8Writer := upcEanWriter fmtEAN_8
+def upcEWriter := upcEanWriter fmtUPC_E
+def code128Writer (runeCount : List Nat → Nat) (inner : List Nat → Hints → Res (List Bool)) : OneDCfg :=
+  plainWriter fmtCODE_128 (code128Core runeCount inner)
+/-- `NewUPCAWriter()`: wraps `NewEAN13Writer()` -/
+def upcAWriter (ean13core : List Nat → Hints → Res (List Bool)) := encodeUPCA (ean13Writer ean13core)
+
 end Gzx.WriterFrontend
